@@ -98,6 +98,12 @@ func (e *Envelope) VerifySignature(sig *dsig.Signature, keys ...*dsig.PublicKey)
 }
 
 func (e *Envelope) verifySignature(sig *dsig.Signature, keys ...*dsig.PublicKey) error {
+	if e.Head == nil {
+		return errors.New("header required")
+	}
+	if sig == nil || sig.JSONWebSignature() == nil {
+		return errors.New("invalid signature")
+	}
 	if len(keys) == 0 {
 		// no keys provided, only check the contents
 		h := new(head.Header)
